@@ -54,6 +54,14 @@ def run_program(sg, hist, junk=0):
             y = d(x)
             y.backward(sg.ones_like(y.data))
             out.append(h(y.data, x.grad.data))
+        elif api == "onehot":
+            # class labels that are strings / floats / negative ints: the column of a class is its rank among the sorted
+            # distinct labels - never an artefact of hashing
+            from synapgrad.nn.utils.data import one_hot_encode
+            o1 = np.asarray(one_hot_encode(np.array(["cat", "dog", "bird", "dog", "emu", "cat", "ant"])))
+            o2 = np.asarray(one_hot_encode(np.array([2.5, -1.0, 2.5, 7.25, 0.0])))
+            o3 = np.asarray(one_hot_encode(np.array([-3, 11, 4, -3, 1000003, 4])))
+            out.append(h(o1.astype(np.float64), o2.astype(np.float64), o3.astype(np.float64)))
         elif api == "fanout":
             # one tensor consumed by many operations under different operands of multi-operand ops: its gradient is a sum
             # of several contributions, and floating-point addition is not associative - the order must not depend on
